@@ -60,7 +60,12 @@ def syncChunks (s : St) : St :=
           if only && (s.cks.find? (fun k => k.id / 10 == c.id)).isSome then { c with loaded := false } else c)
       { s with cidx := { s.cidx with chunks := kept } }
     else s
-  let unknown := (List.range s.cks.size).filter (fun i => (CIndex.findChk s.cidx ((s.cks[i]!).id / 10)).isNone)
+  -- a KNOWN entry is never filled: `lightFill` reads the two records of an entry without hull (`MaxTs ≤ 0`) again, but the
+  -- second `apply` puts the known entry back (finding #63); the proposed repair fills the entries that account for no record
+  let unknown := (List.range s.cks.size).filter (fun i =>
+      match CIndex.findChk s.cidx ((s.cks[i]!).id / 10) with
+      | none => true
+      | some c => Generated.C02.syncChunksRefillsUnfilledEntries && c.recs == 0 && decide (c.maxTs ≤ 0) && (s.cks[i]!).cnt > 0)
   if unknown.isEmpty then s else
   let add (cs : List CIndex.Chk) (i : Nat) : List CIndex.Chk :=
     let c := s.cks[i]!
